@@ -225,7 +225,7 @@ ensures
         forall|s: Slot| keeps_decision(#[trigger] old(self).st(s), final(self).st(s)),
         forall|s: Slot| !decided(final(self).st(s)) ==> final(self).st(s) == #[trigger] old(self).st(s),
         forall|s: Slot| decided(final(self).st(s)) && !decided(#[trigger] old(self).st(s)) ==> s.0 < source_slot.0,
-        // [C08.ancestors_decided_as_soon_as_link_known]
+        // [C08.ancestors_decided_as_soon_as_link_known C07.finalization_decides_every_slot_between]
         implicitly_finalized.0.0 >= old(self).first_unpruned_slot.0 ==>
             ((exists|t: Slot| implicitly_finalized.0.0 < t.0 < source_slot.0 && #[trigger] old(self).st(t) == Some(FinalizationStatus::ImplicitlySkipped))
              || (fin_hash(final(self).st(implicitly_finalized.0)) == Some(implicitly_finalized.1)
